@@ -39,6 +39,7 @@ import (
 	"github.com/bfenetworks/bfe/bfe_modules/mod_header"
 	"github.com/bfenetworks/bfe/bfe_modules/mod_redirect"
 	"github.com/bfenetworks/bfe/bfe_modules/mod_rewrite"
+	"github.com/bfenetworks/bfe/bfe_tls"
 )
 
 var tmpDir string
@@ -87,13 +88,46 @@ func fromHeader(h bfe_http.Header) hv.Val {
 func headerReq() *bfe_basic.Request {
 	req := new(bfe_basic.Request)
 	req.HttpRequest = &bfe_http.Request{Method: "GET", Host: "example.org", URL: &url.URL{Path: "/"}, Header: bfe_http.Header{}, Proto: "HTTP/1.1"}
-	req.Session = &bfe_basic.Session{SessionId: "sess-1", Vip: net.IPv4(10, 1, 2, 3)}
+	req.Session = &bfe_basic.Session{SessionId: "sess-1", Vip: net.IPv4(10, 1, 2, 3), Connection: pipeConn, IsSecure: true, Proto: "h2",
+		TlsState: &bfe_tls.ConnectionState{JA3Raw: "771,4865-4866,0-23-65281,29-23-24,0", JA3Hash: "e7d705a3286e19ea42f587b344ee6865"}}
+	req.ClientAddr = &net.TCPAddr{IP: net.IPv4(192, 0, 2, 7), Port: 4321}
 	req.LogId = "log-42"
 	req.Route.ClusterName = "cluster_a"
 	return req
 }
 
-var safeVars = []string{"bfe_request_host", "bfe_log_id", "bfe_vip", "bfe_cluster", "bfe_session_id"}
+var pipeConn, _ = net.Pipe()
+
+// every variable of the module's table whose handler runs on headerReq() (computed in Setup; all of them do)
+var safeVars []string
+
+func initVars() {
+	names := make([]string, 0, len(mod_header.VariableHandlers))
+	for n := range mod_header.VariableHandlers {
+		names = append(names, n)
+	}
+	sort.Strings(names)
+	for _, n := range names {
+		func() {
+			defer func() {
+				if recover() != nil {
+					fmt.Fprintf(os.Stderr, "c49: variable %s not usable on the harness request\n", n)
+				}
+			}()
+			_ = mod_header.VariableHandlers[n](headerReq())
+			safeVars = append(safeVars, n)
+		}()
+	}
+}
+
+// enumeration stream: every variable x the four documented value-taking commands x three value shapes
+func genVarCase(i int) (string, hv.Val) {
+	cmds := []string{"REQ_HEADER_SET", "REQ_HEADER_ADD", "RSP_HEADER_SET", "RSP_HEADER_ADD"}
+	v := safeVars[(i/12)%len(safeVars)]
+	cmd := cmds[i%4]
+	val := []string{"%" + v, "id=%" + v + "; x", "%" + v + "%" + v}[(i/4)%3]
+	return "varstream/" + cmd, hv.L{hv.I(2), hv.S(cmd), hv.LS([]string{"X-A", val}), hv.L{}, hv.L{}, varsFor(val)}
+}
 
 // oracle rows for the %names occurring in v (longest known name at each position, as splitParam cuts them)
 func varsFor(v string) hv.Val {
@@ -965,6 +999,9 @@ func genHeaderHistory(r *hv.Rng) (string, hv.Val) {
 }
 
 func gen(r *hv.Rng, i int, tier string) (string, hv.Val) {
+	if i < 12*len(safeVars) {
+		return genVarCase(i)
+	}
 	if r.Chance(1, 12) {
 		c, v := genHeaderHistory(r)
 		return "header/" + c, v
@@ -1001,6 +1038,7 @@ func gen(r *hv.Rng, i int, tier string) (string, hv.Val) {
 func main() {
 	hv.Main(&hv.Spec{Prop: "C49", Gen: gen, Impl: impl, NQuick: 12000, NThorough: 600000,
 		Setup: func(string) {
+			initVars()
 			// one fixed scratch directory, one rule file per process (rewritten for every case)
 			tmpDir = filepath.Join(scratchRoot(), "verif-c49")
 			if err := os.MkdirAll(tmpDir, 0755); err != nil {
